@@ -113,6 +113,15 @@ void fiber_manager_yield(fiber_manager_t* manager) {
   assert(manager);
 
   fiber_t* const current_fiber = manager->current_fiber;
+  if (current_fiber == manager->maintenance_fiber &&
+      current_fiber->state == FIBER_STATE_RUNNING) {
+    // the fiber running this thread's scheduler loop only gets here from
+    // do_maintenance() (a deferred unlock waiting for a contender to enqueue
+    // itself). it must not be queued as a ready fiber: another thread could
+    // then resume this thread's scheduler loop
+    cpu_relax();
+    return;
+  }
   while (1) {
     manager->yield_count += 1;
     const fiber_state_t state = current_fiber->state;
